@@ -82,6 +82,31 @@ def constants():
     src = _src(bip85, "_entropy_from_der_path")
     if "hmac.new(_HMAC_KEY, xkey.key[1:], 'sha512').digest()" not in src:
         raise ValueError("bip85._entropy_from_der_path: unexpected shape")
+    li = bip85._LANGUAGE_INDEXES
+    if not isinstance(li, dict) or any(not isinstance(k, str) or not re.fullmatch(r"[a-z_]+", k) or not isinstance(v, int)
+                                       or isinstance(v, bool) or v < 0 for k, v in li.items()):
+        raise ValueError(f"bip85._LANGUAGE_INDEXES: unexpected table {li!r}")
+    src = _src(bip85, "mnemonic_from_root_key")
+    if "der_path = f'm/{_PURPOSE}h/39h/{_LANGUAGE_INDEXES[lang]}h/{words}h/{index}h'" not in src \
+            or "mnemonic_from_entropy(entropy[:_ENTROPY_BYTES[words]], lang)" not in src:
+        raise ValueError("bip85.mnemonic_from_root_key: path / truncation has an unexpected shape")
+    t += "/-- `bip85._LANGUAGE_INDEXES`: word-list key -> BIP85 language code, sorted by code -/\n"
+    t += "def BIP85_LANGUAGES : List (String × Nat) := [" + ", ".join(
+        f"(\"{k}\", {v})" for k, v in sorted(li.items(), key=lambda kv: (kv[1], kv[0]))) + "]\n"
+    apps = {}
+    for fn, rx in (("wif_from_root_key", r"f'm/\{_PURPOSE\}h/(\d+)h/\{index\}h'"),
+                   ("xprv_from_root_key", r"f'm/\{_PURPOSE\}h/(\d+)h/\{index\}h'"),
+                   ("bytes_entropy_from_root_key", r"f'm/\{_PURPOSE\}h/(\d+)h/\{num_bytes\}h/\{index\}h'"),
+                   ("base64_password_from_root_key", r"f'm/\{_PURPOSE\}h/(\d+)h/\{pwd_len\}h/\{index\}h'"),
+                   ("base85_password_from_root_key", r"f'm/\{_PURPOSE\}h/(\d+)h/\{pwd_len\}h/\{index\}h'"),
+                   ("rolls_from_root_key", r"f'm/\{_PURPOSE\}h/(\d+)h/\{sides\}h/\{rolls\}h/\{index\}h'")):
+        mm = re.search(rx, _src(bip85, fn))
+        if not mm:
+            raise ValueError(f"bip85.{fn}: derivation path has an unexpected shape")
+        apps[fn] = int(mm.group(1))
+    t += "/-- the application numbers in the derivation paths of bip85's functions: (function, application) -/\n"
+    t += "def BIP85_APPLICATIONS : List (String × Nat) := [(\"bip39\", 39), " + ", ".join(
+        f"(\"{k}\", {v})" for k, v in apps.items()) + "]\n"
     eb = bip85._ENTROPY_BYTES
     t += "/-- `bip85._ENTROPY_BYTES`: words -> entropy bytes -/\n"
     t += "def BIP85_ENTROPY_BYTES : List (Nat × Nat) := [" + ", ".join(f"({k}, {v})" for k, v in sorted(eb.items())) + "]\n"
